@@ -30,7 +30,10 @@ Abs(x) == IF x < 0 THEN -x ELSE x
 Big == 1000000
 PInf == 2000000
 NInf == -2000000
-Specials == IF Kind = "flt" THEN {Big, PInf, NInf} ELSE {}
+\* unsigned kinds (an integer kind whose domain has no negative value): Big stands for 2^(n-1), the value whose multiples wrap
+\* around: Big * 3 = Big and Big * 2 = 0 in arithmetic modulo 2^n
+IsUns == Kind = "int" /\ Dom # {} /\ \A v \in Dom : v >= 0
+Specials == IF Kind = "flt" THEN {Big, PInf, NInf} ELSE IF IsUns THEN {Big} ELSE {}
 \* |a - b| <= Tol; an infinity is not within tolerance of anything (inf - inf is NaN), Big only of itself
 Eq(a, b) == IF Kind = "str" THEN a = b
             ELSE IF a \in {PInf, NInf} \/ b \in {PInf, NInf} THEN FALSE
@@ -71,12 +74,17 @@ AssignF(h) == /\ Kind = "int" /\ h \in Halves /\ InDom(TruncDiv(h, 2))
                  IF Eq(val, nv) THEN UNCHANGED val /\ notes' = {} ELSE val' = nv /\ notes' = NotifyAll(nv)
               /\ ret' = val' /\ UNCHANGED <<subs, first>>
 \* operator=(2^24): an ordinary assignment of a value outside Dom
-AssignBig == /\ Kind = "flt"
+AssignBig == /\ (Kind = "flt" \/ IsUns)
              /\ IF Eq(val, Big) THEN UNCHANGED val /\ notes' = {} ELSE val' = Big /\ notes' = NotifyAll(Big)
              /\ ret' = val' /\ UNCHANGED <<subs, first>>
 \* 2^24 += 0.25 (or 0.5): the sum rounds back to 2^24 -- the value did not change, nobody is notified
 AddAbsorbed(d) == /\ Kind = "flt" /\ val = Big /\ d \in {1, 2}
                   /\ UNCHANGED <<val, subs, first>> /\ notes' = {} /\ ret' = Big
+\* unsigned: 2^(n-1) *= 3 wraps around to 2^(n-1) -- the value did not change, nobody is notified; 2^(n-1) *= 2 is 0, a change
+MulWrap(f) == /\ IsUns /\ val = Big /\ f \in {2, 3}
+              /\ IF f = 3 THEN UNCHANGED val /\ notes' = {} /\ ret' = Big
+                          ELSE val' = 0 /\ notes' = NotifyAll(0) /\ ret' = 0
+              /\ UNCHANGED <<subs, first>>
 \* a finite non-zero value divided by zero becomes an infinity: a change like any other
 DivZero == /\ Kind = "flt" /\ Ord /\ val # 0
            /\ val' = (IF val > 0 THEN PInf ELSE NInf) /\ notes' = NotifyAll(val') /\ ret' = val' /\ UNCHANGED <<subs, first>>
@@ -106,6 +114,7 @@ Next == \/ \E v \in Values : Assign(v)
         \/ \E f \in Divisors : Div(f)
         \/ \E h \in Halves : AddF(h) \/ SubF(h) \/ MulF(h) \/ DivF(h) \/ AssignF(h)
         \/ AssignBig \/ DivZero \/ \E d \in {1, 2} : AddAbsorbed(d)
+        \/ \E f \in {2, 3} : MulWrap(f)
         \/ \E s \in Strs : Concat(s)
         \/ \E f \in {"id", "inc", "zero"} : Apply(f)
         \/ PreInc \/ PostInc \/ PreDec \/ PostDec \/ MoveConstruct \/ MoveAssign
